@@ -272,3 +272,4 @@ def run(ck):
               "header and date writers / parsers keep no state between calls (no mutable static or thread_local local): what is written for a "
               "value does not depend on which values the thread wrote before",
               key_pred=lambda k: k == "serving-path/static-locals", min_instances=1)
+    lib.no_stale_static_rule(ck, "C16-R8", ('http_header.cc', 'http_headers.cc'), "the typed-header readers and writers")
